@@ -243,6 +243,8 @@ func newErrTag(err error) string {
 func projErrTag(err error) string {
 	s := err.Error()
 	switch {
+	case strings.Contains(s, "unknown order"):
+		return "unknownorder"
 	case strings.Contains(s, "fixed order not allowed for .config"):
 		return "fixedconfig"
 	case strings.Contains(s, ".unit is only allowed in filters"):
@@ -714,7 +716,7 @@ func genProj(r *hx.Rand, rs *resSpec) string {
 			}
 			f += "@(" + strings.Join(vs, " ") + ")"
 		case r.Chance(1, 4):
-			f += hx.Pick(r, []string{"@alpha", "@num"})
+			f += hx.Pick(r, []string{"@alpha", "@num", "@alpha", "@num", "@fixed"})
 		}
 		fs = append(fs, f)
 	}
@@ -761,6 +763,38 @@ func corpusRes(c corpusCase) *resSpec {
 		rs.vals = append(rs.vals, us[(i*i+i/32)%3])
 	}
 	return rs
+}
+
+// results as the real Reader delivers them (units rescaled to base units, OrigUnit set)
+const readerText = `goos: linux
+pkg: p/q
+BenchmarkFoo/size=1-8 10 5 ns/op 3 MB/s 7 B/op 1 allocs/op
+note: n1
+BenchmarkBar/size=2/k=v-16 10 2.5 ns/op 9 widgets 1 KB/op
+BenchmarkBaz 1 1 sec/op 1 ns/op 1 us/op 1 ms/op
+`
+
+var readerExprs = []string{".unit:ns/op", ".unit:sec/op", "-.unit:B/s", ".unit:/^MB/", ".unit:(ns/op OR MB/s) goos:linux",
+	"-.unit:sec/op OR .name:Baz", ".unit:widgets /size:2", "pkg:p/q -(.unit:B/op OR .unit:/s$/)"}
+
+func readerResults() []*resSpec {
+	var out []*resSpec
+	rd := benchfmt.NewReader(strings.NewReader(readerText), "c06")
+	for rd.Scan() {
+		res, ok := rd.Result().(*benchfmt.Result)
+		if !ok {
+			continue
+		}
+		rs := &resSpec{name: string(res.Name)}
+		for _, c := range res.Config {
+			rs.cfg = append(rs.cfg, benchfmt.Config{Key: c.Key, Value: append([]byte(nil), c.Value...), File: c.File})
+		}
+		for _, v := range res.Values {
+			rs.vals = append(rs.vals, valSpec{v.Unit, v.OrigUnit})
+		}
+		out = append(out, rs)
+	}
+	return out
 }
 
 func replayCase(id int, l string) {
@@ -813,8 +847,18 @@ func main() {
 			id++
 		}
 	}
-	r := hx.NewRand(6)
-	n := hx.N(12000, 300000)
+	for _, rs := range readerResults() {
+		for _, e := range readerExprs {
+			if runCase(id, "f", e, rs, nil, []string{"corpus", "reader"}) {
+				id++
+			}
+		}
+	}
+	// hx.NewRand(salt) starts at seed*G+salt+1 and steps by G, so the streams of seeds s and s+1
+	// are the same stream shifted by one draw and the generated cases re-align after the first
+	// case. Derive the salt from the seed through the generator's output function instead.
+	r := hx.NewRand(hx.NewRand(6).U64() | 1<<40)
+	n := hx.N(25000, 300000)
 	for i := 0; i < n; i++ {
 		rs := genRes(r)
 		d := r.Intn(7)
